@@ -36,29 +36,61 @@ pub open spec fn phys_WeightUnit(u: WeightUnit) -> real { match u {       // kil
     WeightUnit::Pounds => 0.45359237real, WeightUnit::Tons => 907.18474real, WeightUnit::Kg => 1real } }
 """
 
+# Each lemma's statement is a predicate; the proof splits on the unit pair and discharges the predicate for the two concrete
+# units in an isolated nonlinear-arithmetic query.  (With Verus' default linear mode a product of two non-constant terms such as
+# conv(a, b, 1) * x is opaque to the solver, and whether the case split happened early enough to fold it was a matter of luck:
+# the lemma flipped to "not satisfied" when unrelated text was added to the file.)
 LEMMAS = """
 // ---- property lemmas for %(E)s (all ordered unit pairs, every magnitude and sign) ----
+pub open spec fn %(E)s_identity_post(a: %(E)s, v: real) -> bool { conv_%(E)s(a, a, v) == v }
 pub proof fn %(E)s_identity(a: %(E)s, v: real)
     ensures conv_%(E)s(a, a, v) == v
 { %(SPLIT1)s }
+pub open spec fn %(E)s_linear_post(a: %(E)s, b: %(E)s, x: real, y: real) -> bool {
+    &&& conv_%(E)s(a, b, x + y) == conv_%(E)s(a, b, x) + conv_%(E)s(a, b, y)
+    &&& conv_%(E)s(a, b, x) == conv_%(E)s(a, b, 1real) * x
+    &&& conv_%(E)s(a, b, 0real) == 0real
+    &&& conv_%(E)s(a, b, 1real) > 0real
+    &&& (x <= y ==> conv_%(E)s(a, b, x) <= conv_%(E)s(a, b, y))
+    &&& (x < y ==> conv_%(E)s(a, b, x) < conv_%(E)s(a, b, y))
+    &&& (x > 0real ==> conv_%(E)s(a, b, x) > 0real)
+}
 pub proof fn %(E)s_linear(a: %(E)s, b: %(E)s, x: real, y: real)
-    ensures conv_%(E)s(a, b, x + y) == conv_%(E)s(a, b, x) + conv_%(E)s(a, b, y),
-            conv_%(E)s(a, b, x) == conv_%(E)s(a, b, 1real) * x,
-            conv_%(E)s(a, b, 0real) == 0real,
-            conv_%(E)s(a, b, 1real) > 0real,
-            x <= y ==> conv_%(E)s(a, b, x) <= conv_%(E)s(a, b, y),
-{ %(SPLIT)s }
+    ensures %(E)s_linear_post(a, b, x, y)
+{ %(SPLIT_linear)s }
+pub open spec fn %(E)s_round_trip_post(a: %(E)s, b: %(E)s, v: real) -> bool {
+    &&& (v >= 0real ==> 0.999real * v <= conv_%(E)s(b, a, conv_%(E)s(a, b, v)) <= 1.001real * v)
+    &&& (v <= 0real ==> 1.001real * v <= conv_%(E)s(b, a, conv_%(E)s(a, b, v)) <= 0.999real * v)
+}
 pub proof fn %(E)s_round_trip(a: %(E)s, b: %(E)s, v: real)
-    ensures v >= 0real ==> 0.999real * v <= conv_%(E)s(b, a, conv_%(E)s(a, b, v)) <= 1.001real * v,
-            v <= 0real ==> 1.001real * v <= conv_%(E)s(b, a, conv_%(E)s(a, b, v)) <= 0.999real * v,
-{ %(SPLIT)s }
+    ensures %(E)s_round_trip_post(a, b, v)
+{ %(SPLIT_round_trip)s }
 """
 PHYS_LEMMA = """
+pub open spec fn %(E)s_physical_post(a: %(E)s, b: %(E)s, v: real) -> bool {
+    &&& (v >= 0real ==> 0.999real * (v * phys_%(E)s(a)) <= conv_%(E)s(a, b, v) * phys_%(E)s(b) <= 1.001real * (v * phys_%(E)s(a)))
+    &&& (v <= 0real ==> 1.001real * (v * phys_%(E)s(a)) <= conv_%(E)s(a, b, v) * phys_%(E)s(b) <= 0.999real * (v * phys_%(E)s(a)))
+    &&& phys_%(E)s(a) > 0real
+}
 pub proof fn %(E)s_physical(a: %(E)s, b: %(E)s, v: real)
-    ensures v >= 0real ==> 0.999real * (v * phys_%(E)s(a)) <= conv_%(E)s(a, b, v) * phys_%(E)s(b) <= 1.001real * (v * phys_%(E)s(a)),
-            v <= 0real ==> 1.001real * (v * phys_%(E)s(a)) <= conv_%(E)s(a, b, v) * phys_%(E)s(b) <= 0.999real * (v * phys_%(E)s(a)),
-{ %(SPLIT)s }
+    ensures %(E)s_physical_post(a, b, v)
+{ %(SPLIT_physical)s }
 """
+
+
+MODE = "single"
+
+
+def lemma_args(enum, vs):
+    """template arguments: per-pair case splits whose arms prove the lemma's predicate for the two concrete units"""
+    def split(name, extra):
+        if MODE == "single":
+            return "assert(%s_%s_post(a, b, %s)) by (nonlinear_arith);" % (enum, name, extra)
+        return "match (a, b) { " + " ".join("(%s::%s, %s::%s) => { assert(%s_%s_post(%s::%s, %s::%s, %s)) by (nonlinear_arith); }"
+                                             % (enum, f, enum, t, enum, name, enum, f, enum, t, extra) for f in vs for t in vs) + " }"
+    split1 = "match a { " + " ".join("%s::%s => {}" % (enum, f) for f in vs) + " }"
+    return dict(E=enum, SPLIT1=split1, SPLIT_linear=split("linear", "x, y"), SPLIT_round_trip=split("round_trip", "v"), SPLIT_physical=split("physical", "v"))
+
 
 BUILDER_LEMMAS = """
 // ---- derived quantities agree with their definitions (C09.3) ----
@@ -200,11 +232,9 @@ pub open spec fn eru_energy(u: EnergyRateUnit) -> EnergyUnit { match u {
     parts.append(PHYS)
     for enum, val, _, _ in fns:
         vs = G.enum_variants(enums[enum])
-        split = "match (a, b) { " + " ".join("(%s::%s, %s::%s) => {}" % (enum, f, enum, t) for f in vs for t in vs) + " }"
-        split1 = "match a { " + " ".join("%s::%s => {}" % (enum, f) for f in vs) + " }"
-        parts.append(LEMMAS % dict(E=enum, SPLIT=split, SPLIT1=split1))
+        parts.append(LEMMAS % lemma_args(enum, vs))
         if enum != "EnergyUnit":
-            parts.append(PHYS_LEMMA % dict(E=enum, SPLIT=split))
+            parts.append(PHYS_LEMMA % lemma_args(enum, vs))
     parts.append(BUILDER_LEMMAS)
     parts.append("""
 // time = distance over speed within 0.31 %% (three table factors of <= 0.1 %% each), every unit triple
@@ -223,6 +253,8 @@ pub proof fn create_time_physical(s: real, su: SpeedUnit, d: real, du: DistanceU
     let pd = d * phys_DistanceUnit(du);
     let ps = s * phys_SpeedUnit(su);
     assert(pd > 0real && ps > 0real) by (nonlinear_arith) requires d > 0real, s > 0real, pd == d * phys_DistanceUnit(du), ps == s * phys_SpeedUnit(su), phys_DistanceUnit(du) > 0real, phys_SpeedUnit(su) > 0real;
+    assert(dm * phys_DistanceUnit(DistanceUnit::Meters) == dm) by (nonlinear_arith) requires phys_DistanceUnit(DistanceUnit::Meters) == 1real;
+    assert(sm * phys_SpeedUnit(SpeedUnit::MetersPerSecond) == sm) by (nonlinear_arith) requires phys_SpeedUnit(SpeedUnit::MetersPerSecond) == 1real;
     assert(0.999real * pd <= dm <= 1.001real * pd);
     assert(0.999real * ps <= sm <= 1.001real * ps);
     assert(sm > 0real && dm > 0real);
@@ -240,6 +272,7 @@ pub proof fn create_time_physical(s: real, su: SpeedUnit, d: real, du: DistanceU
     let t = conv_TimeUnit(TimeUnit::Seconds, tu, q);
     let pt = phys_TimeUnit(tu);
     assert(pt > 0real);
+    assert(q * phys_TimeUnit(TimeUnit::Seconds) == q) by (nonlinear_arith) requires phys_TimeUnit(TimeUnit::Seconds) == 1real;
     assert(0.999real * q <= t * pt <= 1.001real * q);
     let dd = pp / pt;
     assert(dd * pt == pp) by (nonlinear_arith) requires pt > 0real, dd == pp / pt;
